@@ -44,7 +44,7 @@ def run(ctx):
 
 def _kwargs_get(node, kw, key):
     s = src(node)
-    return s in (f"{kw}.get('{key}', None)", f"{kw}.get('{key}')", f"{kw}['{key}']")
+    return s in (f"{kw}.get('{key}', None)", f"{kw}.get('{key}')", f"{kw}['{key}']", f"{kw}.pop('{key}', None)", f"{kw}.pop('{key}')")
 
 
 def _literalise(ctx, node, fi, env):
@@ -149,7 +149,13 @@ def r1_selected_set(ctx):
                                      for c, t in before]))
         fm = G.conj([G._formula(_literalise(ctx, c, po, env)) for c in conds] + [G.disj(reach)])
         naming = {}
+        # a key removed from the keyword dict before the loop is skipped by construction
         skipped = set()
+        for n_ in walk_local(po.node):
+            if isinstance(n_, ast.Call) and isinstance(n_.func, ast.Attribute) and n_.func.attr == 'pop' and F.is_name(n_.func.value, kw) \
+                    and n_.args and isinstance(n_.args[0], ast.Constant) and getattr(n_, 'lineno', 0) < loop.lineno:
+                skipped.add(n_.args[0].value)
+        popped = set(skipped)
         for a in G.atoms_of(fm):
             if a == f'{vv} is None':
                 naming[a] = 'none'
@@ -160,7 +166,8 @@ def r1_selected_set(ctx):
                     skipped.add(k_)
         eq, cex, unknown = G.compare(
             fm, lambda v: not any(v.get(k_, False) for k_ in ('include', 'exclude', 'token_categories')) and not v.get('none', False), naming,
-            constraints=lambda v: sum(1 for k_ in ('include', 'exclude', 'token_categories') if v.get(k_, False)) <= 1)
+            constraints=lambda v: sum(1 for k_ in ('include', 'exclude', 'token_categories') if v.get(k_, False)) <= 1
+            and not any(v.get(k_, False) for k_ in popped))
         ok = eq and not unknown and skipped == {'include', 'exclude', 'token_categories'} and 'none' in naming.values()
         why = f'a keyword is copied under `{G.show(fm)[:160]}`'
         if unknown:
